@@ -31,10 +31,14 @@ CLAIM = dict(
     "deviates by <= 1.001e-5|x|), CombinedModel = sequential composition, parameter routing for 'all' and for every list of "
     "(position, dofs) entries (each addressed sub-model receives exactly the next slice of the flat vector, in order), "
     "heterogeneous = homogeneous per label, thresholding = strictly between bounds inside the mask, the polynomial exponent "
-    "enumeration is a bijection onto {(i,j) | i+j <= d} for all d (tied to the code for d <= 8 by tabulation), kernel "
-    "interpolation reproduces the values when K is invertible (any field). The model is tied to the classes by an exact "
+    "enumeration is a bijection onto {(i,j) | i+j <= d} for all d (tied to the code for d <= 8 by tabulation); KernelInterpolation as a "
+    "state machine (kernel in force, np.unique sort/de-duplication of supports with re-indexed values, cached inverse, update / "
+    "update_kernel / update_model_parameters(values)): for ALL update sequences the cached inverse and the weights belong to the "
+    "current kernel, supports and values, hence reproduction at the current supports whenever the current kernel matrix is "
+    "invertible (any field, abstract kernel). The model is tied to the classes by an exact "
     "differential correspondence on dyadic inputs incl. error classes and by G1 tables of the dof dispatch.",
-    note="partial for kernel interpolation: exp, np.linalg.inv, float32 and the numba kernels are only observed (reproduction "
+    note="the kernel state machine is tied by a correspondence on random op sequences (discrete state exactly; interpolation_weights "
+    "against inv(K(key)) @ values for the key the model predicts); partial for kernel interpolation: exp, np.linalg.inv, float32 and the numba kernels are only observed (reproduction "
     "1e-4, numba vs plain sum 1e-5), on fresh objects and along update sequences on one object (same-count new supports, "
     "value-only updates, changed count, AdvancedKernelInterpolation) with equality to a fresh object after every step; every "
     "updatable parameter is also set to exactly 0 through every route; cv2.resize of label maps of another shape is outside the model.",
@@ -641,25 +645,31 @@ def oracle_zero_updates(ctx, d):
                                   "expected_models_after": wm, "observed": got, "required": want})
 
 
+KERNELS = ["GaussianKernel", "GaussianKernel025", "LinearKernel"]  # identifiers 0, 1, 2 of the state-machine model
+
+
 def _kernel(d, kname):
-    return d.GaussianKernel(1.0) if kname == "GaussianKernel" else d.LinearKernel(1.0)
+    return {"GaussianKernel": lambda: d.GaussianKernel(1.0), "GaussianKernel025": lambda: d.GaussianKernel(0.25),
+            "LinearKernel": lambda: d.LinearKernel(1.0)}[kname]()
 
 
 def _kmat(kname, S):
     S = np.asarray(S, dtype=float)
-    if kname == "GaussianKernel":
-        return np.exp(-np.sum((S[:, None, :] - S[None, :, :]) ** 2, axis=-1))
+    if kname.startswith("GaussianKernel"):
+        g = 0.25 if kname.endswith("025") else 1.0
+        return np.exp(-g * np.sum((S[:, None, :] - S[None, :, :]) ** 2, axis=-1))
     return S @ S.T + 1.0
 
 
 def gen_supports(nrng, kname, n):
     """n distinct supports in [0,3]^3 (multiples of 1/4: exact in float32, unaffected by the rounding to 5 decimals) with a
     well-conditioned kernel matrix, in random (unsorted) order"""
-    for _ in range(200):
+    for _ in range(5000):
         S = nrng.integers(0, 13, (n, 3)) / 4.0
         if len({tuple(r) for r in S.tolist()}) < n:
             continue
-        if np.linalg.cond(_kmat(kname, S)) < (50 if kname == "GaussianKernel" else 400):
+        names = KERNELS if kname == "*" else [kname]
+        if all(np.linalg.cond(_kmat(k, S)) < (400 if k == "LinearKernel" else 50 if k == "GaussianKernel" else 300) for k in names):
             return S
     raise RuntimeError("no well-conditioned supports found")
 
@@ -667,16 +677,23 @@ def gen_supports(nrng, kname, n):
 def gen_kernel_sequence(nrng, kname):
     """list of steps; every step states where the interpolant must reproduce which values afterwards"""
     n = int(nrng.integers(1, 5))
-    steps = [{"op": "init", "supports": gen_supports(nrng, kname, n).tolist(), "values": nrng.integers(0, 17, n).astype(float).__truediv__(16).tolist()}]
+    steps = [{"op": "init", "supports": gen_supports(nrng, "*", n).tolist(), "values": nrng.integers(0, 17, n).astype(float).__truediv__(16).tolist()}]
+    vals = steps[0]["values"]
     for _ in range(int(nrng.integers(3, 7))):
-        op = ["same_count", "values_only", "new_count", "update_model_parameters", "same_count"][int(nrng.integers(0, 5))]
+        op = ["same_count", "values_only", "new_count", "update_model_parameters", "same_count", "kernel_only", "update_kernel"][int(nrng.integers(0, 7))]
         if op == "same_count":
-            steps.append({"op": op, "supports": gen_supports(nrng, kname, n).tolist(), "values": (nrng.integers(0, 17, n) / 16).tolist()})
+            vals = (nrng.integers(0, 17, n) / 16).tolist()
+            steps.append({"op": op, "supports": gen_supports(nrng, "*", n).tolist(), "values": vals})
         elif op == "new_count":
             n = int(nrng.integers(1, 5))
-            steps.append({"op": op, "supports": gen_supports(nrng, kname, n).tolist(), "values": (nrng.integers(0, 17, n) / 16).tolist()})
+            vals = (nrng.integers(0, 17, n) / 16).tolist()
+            steps.append({"op": op, "supports": gen_supports(nrng, "*", n).tolist(), "values": vals})
+        elif op in ("kernel_only", "update_kernel"):
+            kname = [k for k in KERNELS if k != kname][int(nrng.integers(0, 2))]
+            steps.append({"op": op, "kernel": kname})  # the values stay: they must be reproduced with the new kernel
         else:
-            steps.append({"op": op, "values": (nrng.integers(0, 17, n) / 16).tolist()})
+            vals = (nrng.integers(0, 17, n) / 16).tolist()
+            steps.append({"op": op, "values": vals})
     return steps
 
 
@@ -709,8 +726,17 @@ def run_kernel_sequence(d, kname, steps, probe):
     ki = None
     for i, st in enumerate(steps):
         last = i == len(steps) - 1
-        vals = np.array(st["values"], dtype=float)
-        if st["op"] == "init":
+        if st["op"] in ("kernel_only", "update_kernel"):
+            kname = st["kernel"]
+            kern = _kernel(d, kname)
+            at = np.asarray(ki.supports, dtype=float).copy()
+            vals = np.asarray(ki.values, dtype=float).copy()  # unchanged data, in the order of the current supports
+            r = call(ki.update, kernel=kern) if st["op"] == "kernel_only" else call(ki.update_kernel, kern)
+        else:
+            vals = np.array(st["values"], dtype=float)
+        if st["op"] in ("kernel_only", "update_kernel"):
+            pass
+        elif st["op"] == "init":
             at = np.array(st["supports"], dtype=float)
             ki = call(d.KernelInterpolation, kern, at.copy(), vals.copy())
             r = ki
@@ -789,6 +815,158 @@ def oracle_kernel_sequences(ctx, d):
             ctx.fail(f"C14:AdvancedKernelInterpolation({kname}).{bad['op']}", f"call {bad['step']} ({bad['op']}): {bad['what']}",
                      {"advanced_sequence": {"kernel": kname, **seq}, **bad})
     ctx.cov["kernel_sequences"] = {"ops": ops, "rule": "after every step: reproduction at the supports the values belong to (1e-4) and equality with a fresh object (1e-5)"}
+
+
+# ---------------------------------------------------------------------------
+# KernelInterpolation as a state machine: the Lean model predicts, after every op sequence, the kernel in force, the
+# (sorted, de-duplicated) supports, the re-indexed values and WHICH inverse the weights were computed with
+
+
+def gen_kern_ops(nrng, malformed=False):
+    pool = gen_supports(nrng, "*", 4)  # principal sub-matrices of a well-conditioned PSD matrix are well conditioned
+    k0 = int(nrng.integers(0, 3))
+    ops, have_s, have_v = [], 0, 0
+
+    def pick(exclude_none=True):
+        n = int(nrng.integers(1, 5))
+        idx = nrng.permutation(4)[:n].tolist()
+        if nrng.random() < 0.25:
+            idx.append(idx[0])  # a duplicate row: np.unique drops it and keeps the first occurrence's value
+        return idx
+
+    cur_n = 0
+    for step in range(int(nrng.integers(2, 7))):
+        r = nrng.random()
+        if step == 0 or r < 0.35:
+            idx = pick()
+            v = (nrng.integers(0, 17, len(idx)) / 16).tolist()
+            k = None if nrng.random() < 0.7 else int(nrng.integers(0, 3))
+            append = bool(have_s and nrng.random() < 0.3)
+            if malformed and nrng.random() < 0.5:
+                v = v[:-1] if len(v) > 1 else v + [0.5]
+            ops.append(("upd", k, pool[idx].tolist(), v, append))
+            have_s = have_v = 1
+            cur_n = None if append else len(set(idx))
+        elif r < 0.55:
+            n = int(nrng.integers(1, 5)) if malformed else None
+            ops.append(("upd", None, None, "CURRENT" if n is None else (nrng.integers(0, 17, n) / 16).tolist(), False))
+        elif r < 0.7:
+            ops.append(("upd", int(nrng.integers(0, 3)), None, None, False))
+        elif r < 0.8:
+            ops.append(("ker", int(nrng.integers(0, 3))))
+        elif r < 0.9:
+            ops.append(("vp", "CURRENT+"))
+        elif cur_n:
+            # supports only: the stored values are re-used, so keep their number (new coordinates, same count)
+            ops.append(("upd", None, pool[nrng.permutation(4)[:cur_n].tolist()].tolist(), None, False))
+        else:
+            ops.append(("ker", int(nrng.integers(0, 3))))
+    return k0, ops
+
+
+def run_kern_ops(d, nrng, k0, ops):
+    """execute on the real object; `CURRENT` value vectors are drawn with the object's current number of supports.
+    -> (request line for the model, canonical impl response, object or None)"""
+    kernels = [_kernel(d, k) for k in KERNELS]
+    ki = call(d.KernelInterpolation, kernels[k0])
+    toks, err = [], None
+
+    def fr(x):
+        return fmt(Fraction(float(x)))
+
+    for i, op in enumerate(ops):
+        if op[0] == "upd":
+            _, k, S, v, append = op
+            if v == "CURRENT":
+                v = (nrng.integers(0, 17, max(1, int(ki.num_supports))) / 16).tolist()
+            toks.append("upd " + ("none" if k is None else str(k)) + " " + ("none" if S is None else f"pts {len(S)} " + " ".join(fr(c) for p_ in S for c in p_))
+                        + " " + ("none" if v is None else f"vals {len(v)} " + " ".join(fr(x) for x in v)) + (" 1" if append else " 0"))
+            r = call(ki.update, kernel=None if k is None else kernels[k], supports=None if S is None else np.array(S, dtype=float),
+                     values=None if v is None else np.array(v, dtype=float), append=append)
+        elif op[0] == "ker":
+            toks.append(f"ker {op[1]}")
+            r = call(ki.update_kernel, kernels[op[1]])
+        else:
+            ps = (nrng.integers(0, 17, int(ki.num_supports) + 2) / 16).tolist()  # longer than needed: only the first num_supports count
+            toks.append(f"vp {len(ps)} " + " ".join(fr(x) for x in ps))
+            r = call(ki.update_model_parameters, np.array(ps), ["values"])
+        if isinstance(r, Raised):
+            err = f"{r!r}@{i}"
+            break
+    line = f"kern {k0} {len(toks)} " + " ".join(toks)
+    if err:
+        return line, err, None
+    kid = next((j for j, k in enumerate(kernels) if ki.kernel is k), None)
+    S = None if ki.supports is None else np.asarray(ki.supports, dtype=float)
+    V = None if ki.values is None else np.asarray(ki.values, dtype=float)
+    resp = (f"{kid} | {int(ki.num_supports)} | " + ("none" if S is None else " ; ".join(" ".join(fr(c) for c in row) for row in S)) + " | "
+            + ("none" if V is None else " ".join(fr(x) for x in V)))
+    return line, resp, ki
+
+
+def kernel_state_correspondence(ctx, d):
+    nrng = np.random.default_rng(ctx.rng.randrange(2**31))
+    n = ctx.pick(60, 500)
+    cases = []
+    for t in range(n):
+        k0, ops = gen_kern_ops(nrng, malformed=(t % 7 == 6))
+        cases.append(run_kern_ops(d, nrng, k0, ops))
+    got = ctx.model([c[0] for c in cases])
+    diffs, worst, nerr, worst_ratio = [], 0.0, 0, 0.0
+    for (line, resp, ki), g in zip(cases, got):
+        ctx.count(("kern", line))
+        if ki is None:
+            nerr += 1
+            if g.strip() != resp:
+                diffs.append((line, g[:120], resp))
+            continue
+        head, _, w = g.rpartition(" | ")
+        if head.strip() != resp:
+            diffs.append((line, g[:160], resp))
+            continue
+        # the model says which inverse was used: weights must be inv(K(key kernel, key supports)) @ vals
+        iw = ki.interpolation_weights
+        if w.strip() == "W none":
+            if iw is not None:
+                diffs.append((line, "model: no weights", "impl has weights"))
+            continue
+        parts = [x.strip() for x in w.strip()[2:].split(";")]
+        kid, vals = int(parts[0]), np.array([float(Fraction(x)) for x in parts[-1].split()])
+        S = np.array([[float(Fraction(x)) for x in p_.split()] for p_ in parts[1:-1]])
+        K = _kmat(KERNELS[kid], S)
+        want = np.linalg.solve(K, vals)
+        tol = 1e-6 * max(1.0, float(np.linalg.cond(K)))  # the code assembles K from float32 kernel values (6e-8 relative)
+        if iw is None or np.asarray(iw).shape != want.shape:
+            diffs.append((line, "weights", "missing / shape"))
+            continue
+        e = float(np.max(np.abs(np.asarray(iw, dtype=float) - want))) / max(1.0, float(np.max(np.abs(want))))
+        worst = max(worst, e)
+        worst_ratio = max(worst_ratio, e / tol)
+        if not e <= tol:
+            diffs.append((line, f"weights differ from inv(K(kernel {kid}, its supports)) @ values by {e:.3g}", ""))
+    ctx.cov.setdefault("correspondence", {})["kernel-interpolation-state-machine"] = {
+        "cases": len(cases), "error_cases": nerr, "disagreements": len(diffs), "max_rel_weight_diff": worst, "max_diff_over_tolerance": worst_ratio,
+        "compares": "kernel in force, num_supports, supports (sorted/de-duplicated), values (re-indexed) exactly; interpolation_weights against "
+                    "inv(K(key)) @ values for the key the model predicts (1e-6 * cond(K), K is assembled in float32); error class and position"}
+    ctx.sample({"corr": "kernel-state", "request": cases[0][0][:300], "model": got[0][:300], "impl": cases[0][1][:300]})
+    if diffs:
+        ctx.mark("CORR-BROKEN", {"correspondence": "kernel-interpolation-state-machine", "n_diffs": len(diffs), "first": list(map(str, diffs[0]))})
+        ctx.log("kernel state machine: disagreements", diffs[:2])
+
+
+def oracle_kernel_parameters(ctx, d):
+    """update_model_parameters of KernelInterpolation: the default dofs and the `kernel` dof must leave a usable object"""
+    S = np.array([[2.0, 0, 0], [0, 0, 0], [0, 1.0, 1.0]])
+    for dofs in (None, "all", ["kernel"], ["kernel", "values"]):
+        ki = d.KernelInterpolation(d.GaussianKernel(1.0), S.copy(), np.array([0.25, 0.5, 0.75]))
+        p_ = np.array([1.0, 0.5, 0.25, 0.125])
+        ctx.count(("kernel-ump", str(dofs)))
+        r = call(ki.update_model_parameters, p_) if dofs is None else call(ki.update_model_parameters, p_, dofs)
+        out = r if isinstance(r, Raised) else call(ki, S.astype(np.float32))
+        if isinstance(out, Raised):
+            ctx.fail("C14:KernelInterpolation.update_model_parameters(kernel dof):unusable",
+                     f"update_model_parameters(p, dofs={dofs!r}) raises or leaves an object that cannot be evaluated: {out!r}",
+                     {"dofs": dofs, "observed": repr(out), "exception": str(getattr(out, 'exc', ''))[:120]})
 
 
 def oracle_kernel(ctx, d):
@@ -970,6 +1148,8 @@ def run(ctx):
     oracle_zero_updates(ctx, d)
     oracle_kernel(ctx, d)
     oracle_kernel_sequences(ctx, d)
+    kernel_state_correspondence(ctx, d)
+    oracle_kernel_parameters(ctx, d)
     ctx.cov["rule"] = ("distinct = distinct request lines / (clause, parameters); dyadic stream only (exact comparison); "
                        ">= 85 % of routing cases valid for the API, the rest checks error classes")
     ctx.assumptions += [
